@@ -52,6 +52,15 @@ struct VSpec {
   }
   bool equal(const State& a, const State& b) const { return memcmp(a.v, b.v, sizeof a.v) == 0; }
   int alternatives(const Op&) const { return 1; }
+  // Weak executions (C03): operations that do not synchronize with each other may be ordered differently by
+  // different observers (a C++11-consistent execution can contain a cycle of happens-before and "did not see"
+  // edges), so verdicts that change nothing - absent, already present, a value seen by a lookup - are not required to
+  // fit one total order. What stays exact: successful insertions and removals alternate per key consistently with
+  // happens-before, observed values are values that were inserted for that key, the final iteration equals the
+  // result; an "absent" verdict that happens-after an insertion no removal can follow is checked separately.
+  bool weak = false;
+  int16_t id_key[256] = {}; // weak: key + 1 an id was inserted for
+  bool valid(const Op& o) const { return o.obs >= 0 && o.obs < 256 && id_key[o.obs] == o.key + 1; }
   bool apply(State& s, const Op& o, int = 0) const {
     int& cur = s.v[o.key];
     switch (o.kind) {
@@ -62,6 +71,7 @@ struct VSpec {
         cur = o.id + 1;
         return true;
       }
+      if (weak) return !o.has_obs || valid(o);
       if (cur == 0) return false;
       return !o.has_obs || cur == o.obs + 1;
     case O_ERASE:
@@ -70,17 +80,18 @@ struct VSpec {
         cur = 0;
         return true;
       }
-      return cur == 0;
+      return weak || cur == 0;
     case O_EXTRACT:
       if (o.ok) {
         if (cur == 0 || cur != o.obs + 1) return false;
         cur = 0;
         return true;
       }
-      return cur == 0;
+      return weak || cur == 0;
     case O_TRYGET:
     case O_FIND:
     case O_YIELD:
+      if (weak) return !o.ok || valid(o);
       if (o.ok) return cur == o.obs + 1;
       return cur == 0;
     case O_ERASE_IT:
@@ -641,8 +652,33 @@ struct VHarness {
       for (auto& o : hist[t]) all.push_back(o);
     all.push_back(scan);
     VSpec spec;
+    spec.weak = vrt::weak_mode();
+    for (auto& o : all)
+      if (o.kind == O_INSERT && o.id >= 0 && o.id < 256) spec.id_key[o.id] = (int16_t)(o.key + 1);
     VSpec::State init{};
     lin::Checker<VSpec> chk(spec, all);
+    if (spec.weak) {
+      // an "absent" verdict for key k is wrong if some successful insertion of k happens-before it and every successful
+      // removal of k happens-before that insertion (nothing can have removed the element again)
+      for (size_t x = 0; x < all.size(); ++x) {
+        const VOp& X = all[x];
+        bool absent = ((X.kind == O_TRYGET || X.kind == O_FIND || X.kind == O_ERASE || X.kind == O_EXTRACT) && !X.ok) || (X.kind == O_INSERT && X.ok);
+        if (!absent) continue;
+        for (size_t i = 0; i < all.size(); ++i) {
+          const VOp& I = all[i];
+          if (i == x || I.kind != O_INSERT || !I.ok || I.key != X.key || !(chk.pred[x] & (1ull << i))) continue;
+          bool removable = false;
+          for (size_t e = 0; e < all.size() && !removable; ++e) {
+            const VOp& E = all[e];
+            bool removal = ((E.kind == O_ERASE || E.kind == O_EXTRACT) && E.ok) || E.kind == O_ERASE_IT;
+            if (removal && E.key == X.key && !(chk.pred[i] & (1ull << e))) removable = true;
+          }
+          if (!removable)
+            vrt::fail("absent_after_insert_happened_before", "%s of key %d reported 'absent' although the insertion with id %d happens-before it and no removal can follow that insertion",
+                      kn[X.kind], keyval[X.key], I.id);
+        }
+      }
+    }
     // non-triviality: a lock-free read overlapped a successful removal of a key in the same bucket group
     for (size_t i = 0; i < all.size(); ++i)
       if (all[i].kind == O_TRYGET)
@@ -651,10 +687,12 @@ struct VHarness {
               !(chk.pred[j] & (1ull << i)))
             reader_overlapped_removal = true;
     if (!chk.run(init)) {
-      vrt::desc("history (not linearizable):\n");
+      vrt::desc("history (not linearizable; pred = bit set of the operations that precede):\n");
+      size_t oi = 0;
       for (auto& o : all) {
-        vrt::desc("  t%d %s/%d(key %d) -> %s obs=%d id=%d [%lu,%lu]", o.tid, kn[o.kind], o.variant, keyval[o.key], o.ok ? "true" : "false", o.has_obs ? o.obs : -1, o.id,
-                  (unsigned long)o.inv.step, (unsigned long)o.resp.step);
+        vrt::desc("  #%zu t%d %s/%d(key %d) -> %s obs=%d id=%d [%lu,%lu] pred=%lx", oi, o.tid, kn[o.kind], o.variant, keyval[o.key], o.ok ? "true" : "false", o.has_obs ? o.obs : -1,
+                  o.id, (unsigned long)o.inv.step, (unsigned long)o.resp.step, (unsigned long)chk.pred[oi]);
+        oi++;
         if (o.kind == O_SCAN)
           for (int i = 0; i < o.scan_n; ++i) vrt::desc(" (%d,%d)", keyval[o.scan_key[i]], o.scan_id[i]);
         vrt::desc("\n");
